@@ -11,7 +11,9 @@ RULE = ('configs: generated mapping files (1..6 custom protobuf fields varint/st
         'loaded by yaml.Unmarshal + ProducerConfig.Compile as cmd/goflow2 does, and run over mixed histories (v5, v9, IPFIX, '
         'sFlow with raw headers that are captures of model frames) through the auto pipe: every message column and custom '
         'field == model under the compiled abstract configuration; JSON/text/key oracles on the implementation; GetBytes: '
-        'all 1-byte buffers exhaustively, 2- and 3-byte buffers over a bit basis plus random ones, x offsets 0..24 x lengths 0..24 x shift. '
+        'all 1-byte buffers exhaustively, 2- and 3-byte buffers over a bit basis plus random ones, x offsets 0..24 x lengths 0..24 x shift; doc examples: every ```yaml mapping file shown in docs/mapping.md and '
+        'cmd/goflow2/mapping.yaml (re-read from the repository on every run, translated to the abstract configuration by yaml_to_toks) '
+        'must load and behave like the model compiled from its own content. '
         'non-trivial = a message carrying a custom field or produced under a matching mapping; distinct by input')
 TRUSTED = ['Coq 8.16.1 kernel (coqc), vm_compute in the finite GetBytes theorem', 'extraction + ocaml/main.ml glue',
            'Go harness harness/cfg.go, fmt.go; bin/engine.py; the Python YAML printer of this module',
@@ -119,6 +121,57 @@ def gen_cfg(rng):
     return '\n'.join(y) + '\n', toks
 
 
+def yaml_to_toks(doc):
+    """abstract configuration tokens of a parsed mapping file (the same vocabulary gen_cfg prints)"""
+    toks = ['cfg']
+    doc = doc or {}
+    for c in ((doc.get('formatter') or {}).get('protobuf') or []):
+        toks += ['custom', str(c['name']), '#%x' % int(c['index']), '#%x' % (0 if str(c.get('type', '')) == 'varint' else 1),
+                 '#%x' % int(bool(c.get('array', False)))]
+    for sect, ver in (('ipfix', 10), ('netflowv9', 9)):
+        for e in ((doc.get(sect) or {}).get('mapping') or []):
+            toks += ['nf', '#%x' % ver, '#%x' % int(bool(e.get('penprovided', False))), '#%x' % int(e.get('pen', 0) or 0),
+                     '#%x' % int(e['field']), str(e['destination']), '#%x' % int(str(e.get('endianness', '')) == 'little')]
+    sf = doc.get('sflow') or {}
+    for e in (sf.get('ports') or []):
+        tcp = str(e.get('proto')) == 'tcp'
+        pp = {'teredo-dst': 0, 'teredo': 0, 'gre': 1, 'geneve': 2}.get(str(e.get('parser')), 0)
+        dr = str(e.get('dir'))
+        if dr in ('both', 'src'):
+            toks += ['port', '#%x' % int(tcp), '#0', '#%x' % int(e['port']), '#%x' % pp]
+        if dr in ('both', 'dst'):
+            toks += ['port', '#%x' % int(tcp), '#1', '#%x' % int(e['port']), '#%x' % pp]
+    for e in (sf.get('mapping') or []):
+        toks += ['layer', str(e['layer']), '#%x' % int(bool(e.get('encap', False))), '#%x' % int(e.get('offset', 0)),
+                 '#%x' % int(e.get('length', 0)), str(e['destination']), '#%x' % int(str(e.get('endianness', '')) == 'little')]
+    toks.append('end')
+    return toks
+
+
+def doc_examples(repo):
+    """the mapping files the documentation shows: every ```yaml block of docs/mapping.md that is a mapping file
+    (has one of the top-level sections), and cmd/goflow2/mapping.yaml"""
+    import re, yaml
+    out = []
+    try:
+        md = open(os.path.join(repo, 'docs', 'mapping.md')).read()
+    except OSError:
+        md = ''
+    for i, blk in enumerate(re.findall(r'```yaml\n(.*?)```', md, re.S)):
+        try:
+            doc = yaml.safe_load(blk)
+        except Exception:
+            continue
+        if isinstance(doc, dict) and set(doc) & {'formatter', 'ipfix', 'netflowv9', 'sflow'}:
+            out.append(('docs/mapping.md block %d' % (i + 1), blk, doc))
+    try:
+        blk = open(os.path.join(repo, 'cmd', 'goflow2', 'mapping.yaml')).read()
+        out.append(('cmd/goflow2/mapping.yaml', blk, yaml.safe_load(blk)))
+    except Exception:
+        pass
+    return out
+
+
 def nontrivial(inp, out):
     # a custom field (number >= 1000 = 0x3e8) shows up in some message
     return any(int(a[1:], 16) >= 1000 for st in split_steps(out) for m in step_msgs(st)[2] for a, b in m
@@ -177,6 +230,31 @@ def run(chk):
         chk.samples.append(dict(stream='configs', config=bytes.fromhex(ins[0].split(' ')[2][5:]).decode()[:1200],
                                 model=mod[0][:500], impl=impl[0][:500]))
     resolve_scope_b(chk, me, bad, 'configs', {}, None, None)
+    # the mapping files the documentation itself shows (re-read from the repository on every run): each must be
+    # accepted by the loader and behave like the model compiled from its own content
+    exs = doc_examples(REPO)
+    dl, dmeta = [], []
+    for name, blk, doc in exs:
+        try:
+            toks = yaml_to_toks(doc)
+        except Exception as e:
+            chk.notes.append('documented example %s not translated: %s' % (name, str(e)[:100]))
+            continue
+        for h in rng.sample(hists, min(len(hists), dict(quick=6, thorough=60)[chk.tier])):
+            dl.append('pipec flow yaml:%s %s %s' % (blk.encode().hex(), ' '.join(toks), h))
+            dmeta.append(name)
+    di = impl_run(chk.harness, dl, timeout=120.0)
+    dm = model_run(GEN, dl)
+    chk.evals += len(dl)
+    chk.count('documented example mapping files x histories', len(dl))
+    for a, o, m, name in zip(dl, di, dm, dmeta):
+        if nontrivial(a, m):
+            chk.nontrivial.add(hashlib.sha1(a.encode()).digest()[:8])
+        if o != m:
+            chk.record('scopeA-doc', dict(concrete=True, input=a[:60000], impl=o[:3000], expected=m[:3000], config=name,
+                       what='a mapping file shown in the documentation is rejected by the loader or does not do what the reference compiled from the same file does'), {})
+    if dl:
+        chk.samples.append(dict(stream='doc-examples', files=[n for n, _, _ in exs], impl=di[0][:300]))
     # GetBytes
     gb = getbytes_lines(rng)
     bad = run_scope_b(chk, me, gb, 'getbytes', {}, timeout=120.0)
